@@ -218,6 +218,9 @@ pub fn observe(m: &mut Mdl, c: &Call, r: &mut Rules, w: usize) {
                 m.auto_pub = *v;
             } else {
                 m.offline = *v;
+                if *v && pre.st == St::Disc {
+                    m.keep_mark = true;
+                }
             }
             m.opt_toggles += 1;
             r.label("option-toggled");
@@ -267,6 +270,15 @@ pub fn observe(m: &mut Mdl, c: &Call, r: &mut Rules, w: usize) {
             }
         }
         CallKind::Closed => {
+            // a connection attempt that never got a successful CONNACK (refused, or the transport died first) does
+            // not change what the session is: its persistence is the one from before the CONNECT - unless that
+            // CONNECT was a clean start, which began a new (so far empty) session on the spot
+            if !m.established && m.link_up_or_attempted() && !m.clean_start {
+                if m.persistent != m.persistent_before {
+                    r.label("session.attempt-not-established");
+                }
+                m.persistent = m.persistent_before;
+            }
             for (id, o) in &m.ids {
                 match o {
                     Owner::Sub | Owner::Unsub => {
@@ -285,6 +297,8 @@ pub fn observe(m: &mut Mdl, c: &Call, r: &mut Rules, w: usize) {
                 m.q2_notified.clear();
                 m.store.clear();
                 m.owed_rel.clear();
+                // the session ended: from here on the object keeps packets iff offline publishing is on
+                m.keep_mark = m.offline;
             }
             m.st = St::Disc;
             m.link = LinkFacts::default();
@@ -565,6 +579,9 @@ fn on_send(m: &mut Mdl, pre: &Mdl, ap: &AP, c: &Call, r: &mut Rules, exp_rel: &m
                 m.st = St::Connecting;
                 m.as_client = true;
                 m.link_up = true;
+                m.persistent_before = m.persistent || m.keep_mark;
+                m.keep_mark = false;
+                m.established = false;
                 m.persistent = match ver {
                     Ver::V4 => !*clean,
                     Ver::V5 => prop_u32(props, 0x11).map(|v| v != 0).unwrap_or(false),
@@ -587,6 +604,7 @@ fn on_send(m: &mut Mdl, pre: &Mdl, ap: &AP, c: &Call, r: &mut Rules, exp_rel: &m
                 m.connack_owed = false;
                 if *code == 0 {
                     m.st = St::Connected;
+                    m.established = true;
                     m.link.own_rm = prop_u16(props, 0x21);
                     m.link.own_tam = prop_u16(props, 0x22).unwrap_or(0);
                     m.link.own_mps = prop_u32(props, 0x27);
@@ -750,6 +768,9 @@ fn on_recv(m: &mut Mdl, pre: &Mdl, ap: &AP, frame: &[u8], c: &Call, r: &mut Rule
                     m.as_client = false;
                     m.link_up = true;
                     m.connack_owed = true;
+                    m.persistent_before = m.persistent || m.keep_mark;
+                    m.keep_mark = false;
+                    m.established = false;
                     m.persistent = match pv {
                         Ver::V4 => !*clean,
                         Ver::V5 => prop_u32(props, 0x11).map(|v| v != 0).unwrap_or(false),
@@ -794,6 +815,7 @@ fn on_recv(m: &mut Mdl, pre: &Mdl, ap: &AP, frame: &[u8], c: &Call, r: &mut Rule
                 }
                 if *code == 0 {
                     m.st = St::Connected;
+                    m.established = true;
                     m.link.peer_rm = prop_u16(props, 0x21);
                     m.link.peer_tam = prop_u16(props, 0x22).unwrap_or(0);
                     m.link.peer_mps = prop_u32(props, 0x27);
